@@ -156,6 +156,12 @@ def rule_fresh(ctx) -> None:
                     continue
                 n_park += 1
                 stale = any((not pol) and t.replace('"', "'") == f"hasattr({rt.params[1]}, '{attr}')" for t, pol in rcfg.facts(n))
+                # ... and for every clock the consumers accept: a refresh admitted for ONE exact type only (isinstance(x, int)) leaves a
+                # float clock with the previous turn's value, while write_reflection_entries takes int(now_ms) of any number
+                typed = [t for t, pol in rcfg.facts(n) if pol and t.replace(" ", "").startswith("isinstance(") and t.replace(" ", "").endswith(",int)")]
+                ctx.check(not typed, "C19.FRESH", ctx.okey(f"{rt.qual}/per-turn-ctx-value-rewritten-for-any-clock"), rt.loc(c), f"ctx.{attr} is refreshed for every numeric clock",
+                          f"ctx.{attr} is refreshed only where `{typed[0] if typed else ''}`: with a float clock (now_ms = 22345.0) a reused ctx keeps the previous turn's value and the turn's reflection entry "
+                          "is stamped with it - the same id and text get another timestamp than on a fresh ctx")
                 ctx.check(not stale, "C19.FRESH", ctx.okey(f"{rt.qual}/per-turn-ctx-value-rewritten"), rt.loc(c), f"ctx.{attr} is derived from this turn's inputs on every turn",
                           f"ctx.{attr} is derived from this turn's inputs only `if not hasattr(ctx, '{attr}')`: a ctx object reused across turns keeps the first turn's value - "
                           "reflection entries of later turns get the first turn's timestamp, so id and timestamp are not functions of agent, turn, slot and text")
@@ -169,6 +175,29 @@ def rule_fresh(ctx) -> None:
         ctx.check(p is None, "C19.FRESH", f"{rt.qual}/read-after-runner@{len([r for r in ctx.results if r.rule == 'C19.FRESH'])}", rt.loc(c),
                   "the stashed result is read only after this turn's runner call", "ctx._reflection_result is read on a path that skips this turn's runner call",
                   ctx.path_witness(rt, p))
+
+
+def rule_plan_request_fresh(ctx) -> None:
+    """"requested by the plan" means THIS turn's plan.  The gate falls back on a flag that run_policy parks on the state; every
+    planner branch of run_policy must rewrite it (the rule-based planner never requests reflection: it clears the flag), or a
+    request made by an earlier LLM-planned turn opens the gate for a later rule-based one."""
+    rp = ctx.func("clematis.engine.stages.t3.policy:run_policy")
+    cfg = ctx.cfg(rp)
+    # the flag the gate reads
+    runner = ctx.func(RUNNER)
+    flags = {const_str(c.args[1]) for c in walk_no_defs(runner.node) if isinstance(c, ast.Call) and dotted(c.func) == "getattr" and len(c.args) >= 2 and const_str(c.args[1]) and "reflection" in const_str(c.args[1]) and "flag" in const_str(c.args[1])}
+    flags |= {const_str(c.args[0]) for c in walk_no_defs(runner.node) if isinstance(c, ast.Call) and call_tail(c) == "get" and c.args and const_str(c.args[0]) and "reflection" in const_str(c.args[0]) and "flag" in const_str(c.args[0])}
+    if not flags:
+        raise AnalysisError("anchor-vanished: the planner-reflection flag the gate falls back on")
+    sets = [n for n in cfg.nodes for c in node_calls(n) if dotted(c.func) == "setattr" and len(c.args) == 3 and const_str(c.args[1]) in flags]
+    rets = [n for n in cfg.nodes if n.kind == "stmt" and isinstance(n.ast, ast.Return)]
+    ctx.floor("C19.GATE", "returns of run_policy", len(rets), 2)
+    for r in rets:
+        # some write of the flag lies on the way to this return, after the last other return was passed
+        ok = any(cfg.path([s], lambda z: z is r, avoid=lambda z: z in rets and z is not r, include_start=False) is not None for s in sets)
+        ctx.check(ok, "C19.GATE", ctx.okey(f"{rp.qual}/planner-branch-rewrites-the-request"), rp.loc(r.ast), f"this planner branch (re)writes state.{sorted(flags)[0]} before it returns",
+                  f"this branch of run_policy returns without touching state.{sorted(flags)[0]}, which the reflection gate falls back on when plan.reflection is false: a request left by an earlier "
+                  "LLM-planned turn stays set, and a turn whose plan does not request reflection runs it and writes a memory entry")
 
 
 def rule_cap(ctx) -> None:
@@ -503,6 +532,7 @@ def run(ctx) -> None:
     rule_no_shared_state(ctx)
     rule_gate(ctx)
     rule_fresh(ctx)
+    rule_plan_request_fresh(ctx)
     rule_cap(ctx)
     rule_tok(ctx)
     rule_pureid(ctx)
